@@ -165,6 +165,25 @@ CHECKS["C14"] = ("chain", "exploration",
     "Insecure beacon backend only (VRF eligibility not driven); elections triggered by slashing inside an epoch are executed but only epoch-transition elections are evaluated.",
     "DESIGN.md 4/C14")
 
+CHECKS["C17"] = ("chain", "exploration",
+    "authority-by-construction mutants + index/claim recomputation from primary records after every block (rapid)",
+    "Registry-heavy generated histories on the real multiplexer: node re-registrations that keep, renew, swap or cycle the node's own P2P/TLS/VRF keys or take another node's key, entity node-list updates, "
+    "first registrations of whitelisted and stray nodes, deregistration, runtime updates, expiry and re-registration - each also as an unauthorized variant built by construction (wrong transaction signer, each "
+    "single descriptor signature missing or foreign, node not listed, non-governing entity). Every unauthorized variant must fail; after every block all key-to-node indexes, raw index sizes, entity/node/runtime "
+    "ownership relations and every account's stake claims with thresholds are recomputed from the primary records. One defect (key exchange between roles loses a key-map entry) was found and repaired; its "
+    "shrunk reproduction runs as a regression.",
+    "Authority defects are known to the generator by construction; that failing transactions change nothing else is C08's result. Consensus keys and the anchor validator's keys are not rotated.",
+    "DESIGN.md 4/C17")
+CHECKS["C06"] = ("kv", "exploration",
+    "model-based stateful property testing of version histories on both node databases + backend differential (+ race-detector stress in thorough)",
+    "A rapid state machine commits several candidate roots per version (built to share, re-put, resurrect and collide nodes; unchanged and empty roots; state and IO types), finalizes a generated choice, prunes "
+    "with a generated lag and reopens disk-backed databases; after EVERY action every retained finalized root must exist, be listed, scan / get / prove exactly its model contents, discarded candidates must be "
+    "absent, unreadable or exactly their own contents, pruned versions absent. The same history on badger and pathbadger must answer identically on what both accept. Four genuine findings are recorded as known "
+    "findings with deterministic probes and excluded by construction.",
+    "Caller rules respected: versions finalized in order, one finalized root per type per version (a rare badger-only two-sibling action mirrors the repo's own prune test), IO roots without children. An operation "
+    "that returns an error is 'not accepted' and only counted. The concurrency clause is covered by a thorough-tier race-detector stress test whose mismatches count only if reproduced sequentially.",
+    "DESIGN.md 4/C06")
+
 NOT_APPLICABLE = {
 }
 
